@@ -184,6 +184,10 @@ def ensure_build(verbose=True):
     h = tree_hash()
     dest = os.path.join(CACHE, h)
     if os.path.exists(os.path.join(dest, "OK")):
+        try:
+            os.utime(dest, None)      # mark as in use: pruning removes the least recently used entries
+        except OSError:
+            pass
         return dest
     with open(os.path.join(CACHE, "lock"), "w") as lk:
         fcntl.flock(lk, fcntl.LOCK_EX)
@@ -199,10 +203,11 @@ def ensure_build(verbose=True):
             _build_into(dest, log)
             if verbose:
                 print("[build] done in %.1f s" % (time.time() - t0), flush=True)
-            # keep at most two entries
-            entries = sorted((e for e in os.listdir(CACHE) if os.path.isdir(os.path.join(CACHE, e)) and ".tmp" not in e),
+            # keep the three most recently used entries
+            import re
+            entries = sorted((e for e in os.listdir(CACHE) if re.fullmatch(r"[0-9a-f]{20}", e) and os.path.isdir(os.path.join(CACHE, e))),
                              key=lambda e: os.path.getmtime(os.path.join(CACHE, e)))
-            for e in entries[:-2]:
+            for e in entries[:-3]:
                 if e != h:
                     shutil.rmtree(os.path.join(CACHE, e), ignore_errors=True)
                     try:
